@@ -46,6 +46,9 @@ CHECKS = {
   "C07": dict(level="model_checking", design="3.4, 4 (C07)",
       text="MxNegotiate (client and server configurations over 3 versions x 4 suites x 2 groups with key shares and SCSV, the server's choice procedure, a man in the middle with 8 kinds of single-field hello rewrites) is model-checked over all 4.7 million configuration pairs x edits for BothEnabled, HighestVersion and FallbackRefused. Real handshakes are run for all 49 pairs of non-empty version sets (with and without SCSV), suite and group restrictions incl. HelloRetryRequest flows, and with one-byte in-flight rewrites of ClientHello, ServerHello, HelloRetryRequest and the second ClientHello at a spread of offsets (every third byte / every byte of the HRR flow in the thorough tier); MxNegotiate_Trace judges each: completed => version, suite, group enabled by both, version the highest both can run, identical parameters and master secret on both sides, no completion after any rewrite or unjustified fallback.",
       technique="TLA+ spec MxNegotiate checked by TLC + trace validation of configured handshakes and hello rewrites (MxNegotiate_Trace, MxSession_Trace)"),
+  "C18": dict(level="model_checking", design="3.7, 4 (C18)",
+      text="MxFrame (input buffer, record extraction, output buffer under arbitrary receive-piece and partial-send sizes) is model-checked for ChunkIndependent over every partition of two small record streams. On the implementation 21 scenarios (full, resumed by id / ticket / PSK, client auth, version fallback, PSK suite, TLS 1.3 early data, four failing handshakes, server-speaks-first followed by a resumption) with application data across record boundaries are run with the random source and clock pinned, once in one piece and then under fixed piece sizes 1..16384, pseudo-random piece sizes and partial sends; MxFrame_Trace requires each endpoint's final view (state, result, alerts, digest and count of every byte emitted and of all plaintext delivered, resumption of the follow-up connection) to equal the reference.",
+      technique="TLA+ spec MxFrame checked by TLC + differential trace validation of re-chunked executions (MxFrame_Trace)"),
   "C05": dict(level="model_checking", design="3.6, 4 (C05)",
       text="MxName states the matching rule (exact case-insensitive match per kind, '*' for exactly one left-most label, CN only without supported SAN); TLC tabulates it over a universe of patterns x expected names and checks order independence, CN-only-without-SAN and one-label wildcards as invariants. Real leaf certificates with generated SAN lists (0-3 entries from a pool with wildcards in every position, partial wildcards, case variants, trailing dots, control characters, trailing/double/embedded NULs, e-mail, IP, URI entries; every order of sampled pairs/triples) x CN choices are run through matrixValidateCertsExt for each expected name of a grammar, and every verdict is validated by TLC against Match (soundness; completeness on names without trailing dot).",
       technique="TLA+ spec MxName checked by TLC + validation of the library's verdicts on generated certificates (MxName_Trace)"),
@@ -64,7 +67,9 @@ DTLS_NOTE = ("Trusted base: TLC; the driver's queues as the datagram network (no
              "Model bounds: 2 drops, 2 duplications, 2 retransmissions, 1 application record per side (safety); 2 drops, 3 retransmissions (liveness). Cookie exchange and fragmentation are exercised on the implementation only.")
 NEGO_NOTE = ("Trusted base: TLC; the generator's configuration records; the driver's byte rewrite. Versions are passed to the API highest first (its default preference order). "
              "Signature algorithm choice and TLS <= 1.2 ECDHE group choice are observed but not judged; extended-master-secret negotiation is judged only through equality on both sides; DTLS is excluded from rewrites.")
-NOTES = {"C07": NEGO_NOTE, "C16": DTLS_NOTE, "C14": RES_NOTE, "C04": AUTH_NOTE, "C05": NAME_NOTE, "C01": SESSION_NOTE, "C06": SESSION_NOTE, "C15": SESSION_NOTE, "C02": CHAN_NOTE, "C17": CHAN_NOTE, "C03": PKI_NOTE}
+FRAME_NOTE = ("Trusted base: TLC; the driver's pinned entropy and clock wrappers; FNV digests of emitted / delivered bytes. Quick tier: 10 partitions per scenario, thorough: 56. "
+              "The count of REQUEST_RECV / REQUEST_SEND round trips is deliberately not compared; DTLS is out of scope of the property.")
+NOTES = {"C18": FRAME_NOTE, "C07": NEGO_NOTE, "C16": DTLS_NOTE, "C14": RES_NOTE, "C04": AUTH_NOTE, "C05": NAME_NOTE, "C01": SESSION_NOTE, "C06": SESSION_NOTE, "C15": SESSION_NOTE, "C02": CHAN_NOTE, "C17": CHAN_NOTE, "C03": PKI_NOTE}
 
 def main():
     hooks_commits = subprocess.run(["git", "-C", "/repo", "log", "--format=%h %s", "--grep=^verif:"], capture_output=True, text=True).stdout.strip().splitlines()
